@@ -32,4 +32,7 @@ var props = map[string]propCfg{
 	"C13": one(part{Pkg: "./props/process", Test: "TestC13",
 		Quick:    tierCfg{Cases: 8, Shards: 8, Timeout: 15 * min, ShrinkTime: 60 * sec},
 		Thorough: tierCfg{Cases: 64, Shards: 16, Timeout: 90 * min, ShrinkTime: 5 * min}}),
+	"C20": one(part{Pkg: "./props/process", Test: "TestC20",
+		Quick:    tierCfg{Cases: 160, Shards: 8, Timeout: 15 * min, ShrinkTime: 45 * sec},
+		Thorough: tierCfg{Cases: 3000, Shards: 16, Timeout: 90 * min, ShrinkTime: 5 * min}}),
 }
